@@ -12,7 +12,8 @@ RULE = ("each case is ONE history on a fresh memory::backing::Memory: the endian
         "last byte) interleaved with set32/get, followed by a dump (get8 + permissions) of every address of the window and its "
         "margin, get of 14 widths (incl. 0, 4, 12, 33), get32, and the sections() dump; plus every history of <= 2 regions in a "
         "6-byte window (3 regions: 4-byte window in quick, 6-byte in thorough) with dense reads; plus set32/get32 round-trip "
-        "histories. distinct = distinct request line; non-trivial = some set_memory of the history overlaps >= 2 stored "
+        "histories. Sizes: quick 14k random + 3k word histories + 4.2k enumerated; thorough 8 shards x (26k + 5k) + the "
+        "19683 three-region histories per endianness. distinct = distinct request line; non-trivial = some set_memory of the history overlaps >= 2 stored "
         "sections or falls strictly inside one (splits it), decided on falcon's own sections() before the write "
         "(class component `nt`).")
 TRUSTED = [
